@@ -6,6 +6,7 @@ import (
 	"math/big"
 	"sync"
 
+	"github.com/MinterTeam/minter-go-node/coreV2/appdb"
 	eventsdb "github.com/MinterTeam/minter-go-node/coreV2/events"
 	"github.com/MinterTeam/minter-go-node/coreV2/state/accounts"
 	"github.com/MinterTeam/minter-go-node/coreV2/state/app"
@@ -289,7 +290,17 @@ func (s *State) Commit() ([]byte, error) {
 func (s *State) Import(state types.AppState, version string) error {
 	defer s.Checker.RemoveBaseCoin()
 
-	s.App.SetReward(helpers.StringToBigInt(state.PrevReward.Reward), helpers.StringToBigInt(state.PrevReward.Reward))
+	reward := helpers.StringToBigInt(state.PrevReward.Reward)
+	safeReward := reward
+	if state.PrevReward.Off {
+		// while the validators' reward is switched off the emission still follows the price-derived
+		// level; a genesis carries the reserves it was computed from
+		r0, r1 := helpers.StringToBigIntOrNil(state.PrevReward.AmountBIP), helpers.StringToBigIntOrNil(state.PrevReward.AmountUSDT)
+		if r0 != nil && r1 != nil && r0.Sign() == 1 && r1.Sign() == 1 {
+			safeReward = appdb.PriceReward(r0, r1)
+		}
+	}
+	s.App.SetReward(reward, safeReward)
 	s.App.SetMaxGas(state.MaxGas)
 	s.App.SetCoinsCount(uint32(len(state.Coins)))
 
